@@ -6,6 +6,7 @@ import (
 	"flag"
 	"fmt"
 	"os"
+	"path/filepath"
 	"runtime"
 	"sort"
 	"strings"
@@ -26,11 +27,32 @@ type funcOut struct {
 	Obligations []*vc.ObResult `json:"obligations"`
 }
 
+type replayOut struct {
+	Pkg     string            `json:"pkg"`
+	PkgDir  string            `json:"pkg_dir"` // relative to the repository root
+	Driver  string            `json:"driver"`
+	Jobs    string            `json:"jobs"`
+	Reports map[string]string `json:"reports"` // function -> report file
+	Decode  map[string]string `json:"decode"`  // obligation -> how the model was decoded (or why not)
+}
+
+type rtcJob struct {
+	Func          string            `json:"func"`
+	ContractFiles []string          `json:"contract_files"`
+	Inputs        []*vc.ReplayInput `json:"inputs"`
+	SearchMs      int               `json:"search_ms"`
+	Seed          int64             `json:"seed"`
+	MaxLen        int               `json:"max_len"`
+	Report        string            `json:"report"`
+	Trace         string            `json:"trace"`
+}
+
 type output struct {
 	Functions []funcOut `json:"functions"`
 	LoadMs    float64   `json:"load_ms"`
 	SolveMs   float64   `json:"solve_ms"`
 	Errors    []string  `json:"errors,omitempty"`
+	Replay    []*replayOut `json:"replay,omitempty"`
 }
 
 func main() {
@@ -43,6 +65,10 @@ func main() {
 	keep := flag.String("keep", "", "directory to keep SMT queries in")
 	workers := flag.Int("j", runtime.NumCPU(), "parallel solver jobs")
 	dump := flag.Bool("dump", false, "print obligations")
+	replayDir := flag.String("replay-dir", "", "write replay drivers and jobs for functions with failed obligations into this directory")
+	searchMs := flag.Int("search-ms", 15000, "budget of the bounded search for a failing input, per function")
+	seed := flag.Int64("seed", 1, "seed of the bounded search")
+	driverOnly := flag.String("driver-only", "", "only write the replay driver for -funcs into this directory (no verification)")
 	flag.Parse()
 
 	t0 := time.Now()
@@ -59,8 +85,37 @@ func main() {
 			want[f] = true
 		}
 	}
+	if *driverOnly != "" {
+		os.MkdirAll(*driverOnly, 0o755)
+		for _, pi := range eng.Packages() {
+			if pi.Contracts == nil || !pi.Initial {
+				continue
+			}
+			var names []string
+			for _, name := range pi.Contracts.Order {
+				if want[pi.Short+"."+name] {
+					names = append(names, name)
+				}
+			}
+			if len(names) == 0 {
+				continue
+			}
+			rel, _ := filepath.Rel(*repo, pi.Dir)
+			ro := &replayOut{Pkg: pi.Short, PkgDir: rel, Driver: filepath.Join(*driverOnly, "driver_test.go"), Jobs: filepath.Join(*driverOnly, "jobs.json"), Reports: map[string]string{}}
+			os.WriteFile(ro.Driver, []byte(eng.DriverSource(pi, rtcImport, names)), 0o644)
+			res.Replay = append(res.Replay, ro)
+		}
+		data, _ := json.MarshalIndent(res, "", " ")
+		if *out != "" {
+			os.WriteFile(*out, data, 0o644)
+		} else {
+			os.Stdout.Write(data)
+		}
+		return
+	}
 	found := map[string]bool{}
 	var frs []*vc.FuncResult
+	var frPkg []*vc.PkgInfo
 	for _, pi := range eng.Packages() {
 		if pi.Contracts == nil || !pi.Initial {
 			continue
@@ -76,12 +131,14 @@ func main() {
 				continue
 			}
 			frs = append(frs, eng.VerifyFunc(pi, spec))
+			frPkg = append(frPkg, pi)
 		}
 	}
 	for f := range want {
 		if !found[f] {
 			res.Errors = append(res.Errors, "no contract found for "+f)
 			frs = append(frs, &vc.FuncResult{Func: f, Status: "missing", Error: "no contract found"})
+			frPkg = append(frPkg, nil)
 		}
 	}
 	tmp := *keep
@@ -102,6 +159,9 @@ func main() {
 	}
 	results := vc.Discharge(all, tmp, *timeout, *workers, *keep != "")
 	res.SolveMs = float64(time.Since(t1).Milliseconds())
+	if *replayDir != "" {
+		res.Replay = writeReplay(eng, *repo, *replayDir, frs, frPkg, all, results, *searchMs, *seed)
+	}
 	k := 0
 	for _, fr := range frs {
 		fo := funcOut{Func: fr.Func, Mode: fr.Mode, Status: fr.Status, Error: fr.Error, Notes: fr.Notes, Trusted: fr.Trusted, Passes: fr.Passes,
@@ -133,4 +193,92 @@ func main() {
 	} else if !*dump {
 		os.Stdout.Write(data)
 	}
+}
+
+const rtcImport = "github.com/inspirer/textmapper/zz_verif_rtc"
+
+// writeReplay prepares, per package, the driver and the jobs of the executable contract back end
+// for every function that has an obligation which was refuted or left undecided.
+func writeReplay(eng *vc.Engine, repo, dir string, frs []*vc.FuncResult, frPkg []*vc.PkgInfo, all []*vc.Obligation, results []*vc.ObResult, searchMs int, seed int64) []*replayOut {
+	os.MkdirAll(dir, 0o755)
+	byPkg := map[*vc.PkgInfo]*replayOut{}
+	jobs := map[*vc.PkgInfo][]*rtcJob{}
+	var order []*vc.PkgInfo
+	k := 0
+	for fi, fr := range frs {
+		n := len(fr.Obligations)
+		obls, ress := all[k:k+n], results[k:k+n]
+		k += n
+		pi := frPkg[fi]
+		if pi == nil || fr.Status != "ok" {
+			continue
+		}
+		var failed []int
+		for i, r := range ress {
+			if r.Status == "refuted" {
+				failed = append(failed, i)
+			}
+		}
+		for i, r := range ress {
+			if r.Status == "unknown" {
+				failed = append(failed, i)
+			}
+		}
+		if len(failed) == 0 {
+			continue
+		}
+		ro := byPkg[pi]
+		if ro == nil {
+			rel, _ := filepath.Rel(repo, pi.Dir)
+			sub := filepath.Join(dir, strings.ReplaceAll(rel, "/", "_"))
+			os.MkdirAll(sub, 0o755)
+			ro = &replayOut{Pkg: pi.Short, PkgDir: rel, Driver: filepath.Join(sub, "driver_test.go"), Jobs: filepath.Join(sub, "jobs.json"),
+				Reports: map[string]string{}, Decode: map[string]string{}}
+			byPkg[pi] = ro
+			order = append(order, pi)
+		}
+		name := strings.TrimPrefix(fr.Func, pi.Short+".")
+		job := &rtcJob{Func: name, SearchMs: searchMs, Seed: seed, MaxLen: 4,
+			Report: filepath.Join(filepath.Dir(ro.Driver), "report_"+sanitizeName(name)+".json"),
+			Trace:  filepath.Join(filepath.Dir(ro.Driver), "trace_"+sanitizeName(name)+".txt")}
+		for _, cf := range eng.ContractFilesFor(pi) {
+			job.ContractFiles = append(job.ContractFiles, cf.Path)
+		}
+		for j, i := range failed {
+			if j >= 3 {
+				break
+			}
+			in, err := vc.DecodeEntry(obls[i], 10)
+			if err != nil {
+				ro.Decode[obls[i].Name] = "no input decoded: " + err.Error()
+				continue
+			}
+			ro.Decode[obls[i].Name] = "entry state decoded from the solver's " + in.Verdict + " answer"
+			job.Inputs = append(job.Inputs, in)
+		}
+		ro.Reports[fr.Func] = job.Report
+		jobs[pi] = append(jobs[pi], job)
+	}
+	var out []*replayOut
+	for _, pi := range order {
+		ro := byPkg[pi]
+		var names []string
+		for _, j := range jobs[pi] {
+			names = append(names, j.Func)
+		}
+		os.WriteFile(ro.Driver, []byte(eng.DriverSource(pi, rtcImport, names)), 0o644)
+		data, _ := json.MarshalIndent(jobs[pi], "", " ")
+		os.WriteFile(ro.Jobs, data, 0o644)
+		out = append(out, ro)
+	}
+	return out
+}
+
+func sanitizeName(s string) string {
+	return strings.Map(func(r rune) rune {
+		if r >= 'a' && r <= 'z' || r >= 'A' && r <= 'Z' || r >= '0' && r <= '9' {
+			return r
+		}
+		return '_'
+	}, s)
 }
